@@ -245,8 +245,17 @@ func runC15(c *Ctx) []Violation {
 					continue
 				}
 				if i == pos && a.Checksum == b.Checksum {
-					return []Violation{viol("C15.checksum-sensitive", w.Format+": replacing an ingested value does not change the record's checksum",
-						det(fmt.Sprintf("record #%d field %d: raw %s -> %s, checksum %s both times", i+1, fi, clipS(a.RawJSON, 200), clipS(b.RawJSON, 200), a.Checksum))...)}
+					v := viol("C15.checksum-sensitive", w.Format+": replacing an ingested value does not change the record's checksum",
+						det(fmt.Sprintf("record #%d field %d: raw %s -> %s, checksum %s both times", i+1, fi, clipS(a.RawJSON, 200), clipS(b.RawJSON, 200), a.Checksum),
+							"record before: "+clipS(w.Render(w.LRecs[k]), 300), "record after:  "+clipS(w.Render(nr), 300),
+							"output before: "+clipS(a.Out, 300), "output after:  "+clipS(b.Out, 300))...)
+					// known finding: the checksum is computed from idr.JSONify2 of the record, which leaves out
+					// the attributes of an element that has text and no child elements
+					if w.Format == "xml" && w.Tag("xml.leaf-attribute") == fmt.Sprint(fi) && a.RawJSON == b.RawJSON && c.FindingOpen("xml-checksum-ignores-attributes-of-text-elements") {
+						v.Finding = "xml-checksum-ignores-attributes-of-text-elements"
+						v.What = "xml: two records that differ only in an attribute of a text-only element have the same checksum"
+					}
+					return []Violation{v}
 				}
 				if i != pos && a.Checksum != b.Checksum {
 					return []Violation{viol("C15.checksum-local", w.Format+": replacing a value in one record changes the checksum of another record",
